@@ -391,3 +391,30 @@ def whole_psbt(ex, scenario, version):
         again = Psbt.from_dict(p.to_dict(check_validity=False), check_validity=False)
         claims["from_dict_of_to_dict_is_equal"] = again == p
     return claims
+
+
+# ------------------------------------------------------------------ p2p envelope: the command field is accepted exactly by Core's rule
+@ob("C05", "p2p_message_command_is_accepted_exactly_by_cores_rule", quick=[dict()],
+    bound="a 24-octet header with an empty payload (right length and checksum), mainnet magic, all 12 command octets symbolic: Message.parse accepts exactly Core's IsMessageTypeValid -- printable "
+          "ASCII 0x20..0x7e before the first NUL, NUL only after it --, the command read is those octets, it serializes back to the same 24 octets and the valid object parses back equal",
+    functions=["btclib.p2p.message.Message.parse", "btclib.p2p.message._command_from_bytes", "btclib.p2p.message.Message.serialize", "btclib.p2p.message.Message.assert_valid"], min_ok=1, timeout=300)
+def p2p_command_rule(ex):
+    from btclib.p2p.message import Message
+    from btclib import hashes as _h
+    cmd = ex.bytes("cmd", 12)
+    raw = bytes.fromhex("f9beb4d9") + cmd + (0).to_bytes(4, "little") + _h.hash256(b"")[:4]
+    seen_nul = False
+    ok = True
+    for j in range(12):
+        is_nul = cmd[j] == 0
+        ok = sand(ok, ite(sor(seen_nul, is_nul), is_nul, sand(cmd[j] >= 0x20, cmd[j] <= 0x7E)))
+        seen_nul = sor(seen_nul, is_nul)
+    try:
+        m = Message.parse(raw)
+    except LIB_ERRORS:
+        return ex.refuse("refused", refused_only_what_core_refuses=snot(ok))
+    out = m.serialize()
+    claims = {"accepted_only_what_core_accepts": ok, "reserialize_identity": sand(len(out) == 24, out == raw)}
+    again = Message.parse(out)
+    claims["valid_object_parses_back_equal"] = sand(again.command == m.command, again.magic == m.magic, again.payload == m.payload)
+    return claims
